@@ -71,7 +71,7 @@ def ref_quiescent(r0, cmd):
     if k == "initialize":
         r.init()
         return [alt(r, "ok")]
-    if k == "stop":
+    if k in ("stop", "initialize_bad"):
         return [alt(same, "DSOLError")]
     if k == "cleanup":
         r.phase = "NOT_INIT"
@@ -302,7 +302,8 @@ ARMS = [(loc, x) for loc in ("on:START_REPLICATION", "on:STARTING",
                              "on:STOP", "on:END_REPLICATION")
         for x in (("stop",), ("start",), ("step",), ("initialize",),
                   ("upto", MID), ("end_replication",), ("cleanup",))]
-PLAIN = [("initialize",), ("start",), ("step",), ("stop",), ("upto", MID),
+PLAIN = [("initialize",), ("initialize_bad",), ("start",), ("step",),
+         ("stop",), ("upto", MID),
          ("uptoi", 2.0), ("upto", 2.0), ("upto", END), ("end_replication",),
          ("cleanup",)]
 
@@ -350,6 +351,9 @@ def match(o, a):
         return "clock %s, expected %s" % (o["clock"], r.clock)
     if r.phase != "NOT_INIT" and o["trace"] != r.trace:
         return "executed %s, expected %s" % (o["trace"], r.trace)
+    if r.phase in ("INIT", "STOPPED") and o.get("pending") is not None \
+            and o["pending"] != len(r.pend):
+        return "%s pending events, expected %d" % (o["pending"], len(r.pend))
     if o["live_threads"] != r.live:
         return "%d live run threads, expected %d" % (o["live_threads"],
                                                      r.live)
